@@ -41,6 +41,24 @@ func TestVerifC05(t *testing.T) {
 	for _, v := range []byte{0x01, 0x55, 0xaa, 0x80, 0x7f} {
 		keys = append(keys, bytes.Repeat([]byte{v}, 16))
 	}
+	// keys SOLVED so that a chosen round key has a chosen value (0, all ones, one bit): a guard, a shortcut or a table
+	// index keyed on "this word is zero" meets such a key once in 2^32
+	for _, pos := range []int{0, 1, 2, 15, 16, 29, 30, 31} {
+		for vi, v := range []uint32{0, 0xffffffff, 1, 0x80000000} {
+			w := [4]uint32{uint32(rng.Uint64()), uint32(rng.Uint64()), uint32(rng.Uint64()), v}
+			// K_{pos+4} = rk_pos sits at index 3 of the window starting at pos+1
+			k := ref.SM4KeyWithRoundKeys(pos+1, w)
+			if rk := ref.SM4RoundKeys(k); rk[pos] != v {
+				r.Inconclusive("c05: solved key does not have the chosen round key")
+				break
+			}
+			if vi < 2 || hk.Thorough() || pos == 0 || pos == 31 {
+				keys = append(keys, k)
+			}
+		}
+	}
+	// two round keys zero at once (rk_0 = rk_1 = 0, rk_30 = rk_31 = 0)
+	keys = append(keys, ref.SM4KeyWithRoundKeys(4, [4]uint32{0, 0, uint32(rng.Uint64()), uint32(rng.Uint64())}), ref.SM4KeyWithRoundKeys(32, [4]uint32{uint32(rng.Uint64()), uint32(rng.Uint64()), 0, 0}))
 	for i := 0; i < hk.N(400, 20000); i++ {
 		keys = append(keys, rng.Bytes(16))
 	}
